@@ -888,6 +888,9 @@ pub fn scheds_json(s: &[Vec<usize>]) -> Value {
 pub fn conservative(body: &[u8], out: &[u8], inserts: &[Vec<u8>], replaces: &[Vec<u8>]) -> bool {
     let n = body.len();
     let m = out.len();
+    if (n + 1) * (m + 1) > 4_000_000 {
+        return conservative_large(body, out, inserts, replaces);
+    }
     // reach[i][j]: body[..i] explained by out[..j]
     let mut reach = vec![vec![false; m + 1]; n + 1];
     reach[0][0] = true;
@@ -919,6 +922,80 @@ pub fn conservative(body: &[u8], out: &[u8], inserts: &[Vec<u8>], replaces: &[Ve
         }
     }
     reach[n][m]
+}
+
+/// The same relation for large inputs (the quadratic table would not fit).  Uses the sentinel hypothesis: a value never
+/// occurs in the body, so every occurrence of a value in `out` is a copy of that value.  `out` is cut at the values;
+/// insert values vanish, the literal pieces between replace values must tile `body` with '<'..'>' spans in between
+/// (depth-first search with memo over (piece, position)).
+pub fn conservative_large(body: &[u8], out: &[u8], inserts: &[Vec<u8>], replaces: &[Vec<u8>]) -> bool {
+    let mut vals: Vec<(&[u8], bool)> = inserts.iter().filter(|v| !v.is_empty()).map(|v| (v.as_slice(), false)).collect();
+    vals.extend(replaces.iter().filter(|v| !v.is_empty()).map(|v| (v.as_slice(), true)));
+    vals.sort_by_key(|v| std::cmp::Reverse(v.0.len()));
+    let firsts: Vec<u8> = vals.iter().map(|v| v.0[0]).collect();
+    let mut pieces: Vec<Vec<u8>> = vec![Vec::new()];
+    let mut j = 0;
+    while j < out.len() {
+        let mut hit = None;
+        if firsts.contains(&out[j]) {
+            for (v, is_rep) in &vals {
+                if out[j..].starts_with(v) {
+                    hit = Some((v.len(), *is_rep));
+                    break;
+                }
+            }
+        }
+        match hit {
+            Some((l, is_rep)) => {
+                if is_rep {
+                    pieces.push(Vec::new());
+                }
+                j += l;
+            }
+            None => {
+                pieces.last_mut().unwrap().push(out[j]);
+                j += 1;
+            }
+        }
+    }
+    let n = body.len();
+    let k = pieces.len() - 1;
+    let gts: Vec<usize> = (0..n).filter(|i| body[*i] == b'>').collect();
+    let mut dead: std::collections::HashSet<(usize, usize)> = std::collections::HashSet::new();
+    // iterative DFS
+    let mut stack: Vec<(usize, usize)> = vec![(0, 0)];
+    while let Some((i, pos)) = stack.pop() {
+        if dead.contains(&(i, pos)) {
+            continue;
+        }
+        dead.insert((i, pos));
+        let p = &pieces[i];
+        if pos + p.len() > n || body[pos..pos + p.len()] != p[..] {
+            continue;
+        }
+        let after = pos + p.len();
+        if i == k {
+            if after == n {
+                return true;
+            }
+            continue;
+        }
+        if after >= n || body[after] != b'<' {
+            continue;
+        }
+        let next = &pieces[i + 1];
+        let start = gts.partition_point(|g| *g <= after);
+        // candidates in reverse so that the nearest '>' is tried first
+        for g in gts[start..].iter().rev() {
+            let e = g + 1;
+            if next.is_empty() || (e < n && body[e] == next[0]) || (e == n && next.is_empty()) {
+                if !dead.contains(&(i + 1, e)) {
+                    stack.push((i + 1, e));
+                }
+            }
+        }
+    }
+    false
 }
 
 pub fn hexs(v: &[u8]) -> String {
@@ -1210,4 +1287,103 @@ pub fn encoder_outputs(enc: &str, writes: &[Vec<u8>]) -> Option<(Vec<Vec<u8>>, V
         "br" => drive!(brotli::CompressorWriter::new(Vec::new(), 4096, 11, 22), |e: brotli::CompressorWriter<Vec<u8>>| Some(e.into_inner())),
         _ => None,
     }
+}
+
+// ------------------------------------------------------------------------------------------------
+// deterministic boundary families (emitted first in EVERY run of c03 / c04)
+// ------------------------------------------------------------------------------------------------
+
+pub struct BCase {
+    pub body: Vec<u8>,
+    pub filters: Vec<FSpec>,
+    pub scheds: Vec<Vec<usize>>,
+    pub shape: String,
+}
+
+pub const BOUNDARY_SIZES: &[usize] = &[1, 255, 256, 4095, 4096, 4097, 8191, 8192, 8193, 16384, 65536, 70000];
+
+fn hf(a: &str, path: &[&str], sel: Option<&str>, v: &str) -> FSpec {
+    FSpec::Html { action: a.to_string(), path: path.iter().map(|x| x.to_string()).collect(), sel: sel.map(|x| x.to_string()), value: v.to_string() }
+}
+
+/// LONG HELD TAILS: a chunk boundary N bytes inside (tag) an unfinished tag with a big attribute value, (text) a held
+/// text containing '<', (mb) a multi-byte character preceded by N bytes of held tag — at top level, while the target
+/// element is being buffered (replace / append+selector / prepend+selector) and with two html stages.
+/// LONG BUFFERS: a 100 KiB target element, 1 000 sibling targets.
+pub fn boundary_cases() -> Vec<BCase> {
+    let mut out = Vec::new();
+    let filler = |n: usize| -> String {
+        const AB: &[u8] = b"ABCDEFGHIJKLMNOPQRSTUVWXYZabcdefghijklmnopqrstuvwxyz0123456789+/";
+        (0..n).map(|i| AB[(i * 7 + i / 64) % AB.len()] as char).collect()
+    };
+    let contexts: Vec<(&str, bool, Vec<FSpec>)> = vec![
+        ("top", false, vec![hf("append_child", &["html", "body"], None, "<ins-0>v0</ins-0>")]),
+        ("buffered-replace", true, vec![hf("replace", &["html", "body", "div"], None, "<ins-0>r</ins-0>")]),
+        ("buffered-append-sel", true, vec![hf("append_child", &["html", "body", "div"], Some("rio-never"), "<ins-0>v0</ins-0>")]),
+        ("buffered-prepend-sel", true, vec![hf("prepend_child", &["html", "body", "div"], Some("rio-never"), "<ins-0>v0</ins-0>")]),
+        ("two-html", true, vec![hf("append_child", &["html", "body"], None, "<ins-0>v0</ins-0>"), hf("replace", &["html", "body", "div"], Some("*"), "<ins-1>r</ins-1>")]),
+    ];
+    for (si, &n) in BOUNDARY_SIZES.iter().enumerate() {
+        for kind in ["tag", "text", "mb"] {
+            // the construct and the offset of the cut inside it
+            let (construct, cut_in): (String, usize) = match kind {
+                "tag" => {
+                    let open = "<a href=\"data:text/plain;base64,";
+                    let m = n.max(open.len() + 4) + 9;
+                    (format!("{open}{}\">link</a>", filler(m - open.len())), n)
+                }
+                "text" => {
+                    // "1 <" then n - 1 more bytes of text, then the cut
+                    (format!("1 < {} z<b>t</b>", filler(n + 5)), 2 + n)
+                }
+                _ => {
+                    let open = "<a title=\"";
+                    let k = if si % 2 == 0 { 1 } else { 3 }; // cut after 1 or 3 bytes of the 4-byte character
+                    (format!("{open}{}\u{1f600}\u{e9}\">t</a>", filler(n)), open.len() + n + k)
+                }
+            };
+            for (cname, inside, filters) in &contexts {
+                let (pre, post) = if *inside { ("<html><body><div class=t>x", "y</div><p>after</p></body></html>") } else { ("<html><body><p>intro</p>", "<div>d</div></body></html>") };
+                let body = format!("{pre}{construct}{post}").into_bytes();
+                let cut = pre.len() + cut_in;
+                let scheds = vec![vec![cut], vec![cut, cut + 1], vec![cut - 1], vec![cut / 2, cut], vec![cut, body.len() - 3]];
+                out.push(BCase { body, filters: filters.clone(), scheds, shape: format!("boundary:{kind}:{cname}") });
+            }
+        }
+    }
+    // long buffered element (100 KiB) — few tokens, the buffer is what is long
+    let blob = "lorem ipsum dolor sit amet ";
+    let mut inner = String::new();
+    for i in 0..10 {
+        inner.push_str(&format!("<b>{}</b>{}", blob.repeat(10 * 1024 / blob.len()), if i % 3 == 0 { "\u{e9}<" } else { " " }));
+    }
+    let big = format!("<html><body><div id=t>{inner}</div><p>z</p></body></html>").into_bytes();
+    for (cname, filters) in [
+        ("replace", vec![hf("replace", &["html", "body", "div"], None, "<ins-0>r</ins-0>")]),
+        ("append-sel-never", vec![hf("append_child", &["html", "body", "div"], Some("rio-never"), "<ins-0>v0</ins-0>")]),
+        ("prepend-sel-always", vec![hf("prepend_child", &["html", "body", "div"], Some("*"), "<ins-0>v0</ins-0>")]),
+        ("two-html", vec![hf("append_child", &["html", "body", "div"], Some("rio-never"), "<ins-0>v0</ins-0>"), hf("replace", &["html", "body", "p"], None, "<ins-1>r</ins-1>")]),
+    ] {
+        let len = big.len();
+        let scheds = vec![vec![len / 2], (1..=(len - 1) / 4096).map(|i| i * 4096).collect(), vec![17, len - 20], (1..=(len - 1) / 8191).map(|i| i * 8191).collect()];
+        out.push(BCase { body: big.clone(), filters, scheds, shape: format!("boundary:big-target:{cname}") });
+    }
+    // 1 000 sibling targets
+    let mut sib = String::from("<html><body><ul>");
+    for i in 0..1000 {
+        sib.push_str(&format!("<li>{i}</li>"));
+    }
+    sib.push_str("</ul></body></html>");
+    let sib = sib.into_bytes();
+    for (cname, filters) in [
+        ("replace", vec![hf("replace", &["html", "body", "ul", "li"], None, "<ins-0/>")]),
+        ("replace-sel", vec![hf("replace", &["html", "body", "ul", "li"], Some("*"), "<ins-0/>")]),
+        ("append", vec![hf("append_child", &["html", "body", "ul", "li"], None, "<ins-0/>")]),
+        ("prepend-sel", vec![hf("prepend_child", &["html", "body", "ul", "li"], Some("rio-never"), "<ins-0/>")]),
+    ] {
+        let len = sib.len();
+        let scheds = vec![vec![len / 2], (1..=(len - 1) / 7).map(|i| i * 7).collect(), (1..=(len - 1) / 4096).map(|i| i * 4096).collect()];
+        out.push(BCase { body: sib.clone(), filters, scheds, shape: format!("boundary:siblings:{cname}") });
+    }
+    out
 }
